@@ -4,6 +4,7 @@ package main
 // against the container model of Args.v: per-operation status, final iteration order and values, ToIPLD.
 
 import (
+	"github.com/ucan-wg/go-ucan/pkg/policy/limits"
 	"github.com/ipld/go-ipld-prime/datamodel"
 	"github.com/ipld/go-ipld-prime/node/basicnode"
 
@@ -136,7 +137,24 @@ func genArgs(c *Ctx) {
 			ow = append(ow, o.wire())
 		}
 		c.Emit(tag+"/args", WList(WStr("args"), WList(ow...)), runArgOps(true, ops))
-		c.Emit(tag+"/meta", WList(WStr("meta"), WList(ow...)), runArgOps(false, ops))
+		// metadata: whether a value with an integer beyond 2^53-1 is kept or refused is open (the status of an Add tells
+		// the model which); inside the container handed to Include nothing reports it, so such pairs are left out there
+		var mops []argOp
+		var mw []W
+		for _, o := range ops {
+			if o.kind == "include" {
+				var kvs []KVn
+				for _, kv := range o.kvs {
+					if limits.ValidateIntegerBoundsIPLD(kv.v) == nil {
+						kvs = append(kvs, kv)
+					}
+				}
+				o.kvs = kvs
+			}
+			mops = append(mops, o)
+			mw = append(mw, o.wire())
+		}
+		c.Emit(tag+"/meta", WList(WStr("meta"), WList(mw...)), runArgOps(false, mops))
 	}
 	// exhaustive: two operations over 3 keys x 3 values
 	small := []string{"a", "b", ""}
